@@ -11,7 +11,7 @@ CASE_TIMEOUT = 90.0
 CHUNK = 4
 RULE = ('cases = seeded (workload family+sizes+dtype, worker count, granularity sync|line, scheduling strategy+decision tape, fault plan); '
         'each executed once under the baton scheduler over real forked processes; distinct = SHA-1 of the recorded event log '
-        '(process, kind, object ordinal, value) i.e. a distinct interleaving/fault history; non-trivial = at least two processes ran and at least one context switch or fault occurred')
+        '(process, kind, object ordinal, value) i.e. a distinct interleaving/fault history; non-trivial = at least two processes ran and at least one context switch or fault occurred. A few per cent of the cases are kill-point sweeps: one small program and one schedule, a worker killed at EVERY one of its yield points in turn (within a wall budget; reach probe killsweep_*)')
 ASSUMPTIONS = [
     'CPU-level atomicity is not modelled: between two yield points the baton holder runs alone (races are detected by happens-before on bytes written, not by manifestation)',
     'the lock stub has POSIX-semaphore semantics (non-recursive, not robust: a killed holder never releases), as multiprocessing.Lock',
@@ -98,6 +98,14 @@ def gen_case(rng, index, tier):
     gran = 'line' if rng.random() < 0.3 else 'sync'
     case = dict(kind=kind, prog=prog, nprocs=nprocs, compile_procs=rng.choice([2, nprocs, nprocs, 7]), gran=gran,
                 sched=gen_sched(rng), faults=[], cfg=dict(cache=rng.random() < 0.7, twice=rng.random() < 0.3))
+    if rng.random() < (0.10 if tier == 'thorough' else 0.04) and kind in ('expr', 'locate'):
+        # kill-point sweep on a small instance
+        case.update(sweep=True, gran='sync', nprocs=rng.choice([2, 2, 3]), faults=[])
+        case['cfg']['twice'] = False
+        for key in ('n', 'npts'):
+            if key in prog:
+                prog[key] = min(prog[key], 3)
+        return case
     if rng.random() < 0.4:
         case['faults'] = gen_faults(rng, nprocs, gran)
     elif rng.random() < 0.06:
@@ -363,11 +371,80 @@ def run_calibration(case):
     return res
 
 
+def run_sweep(case):
+    '''Kill-point sweep: for ONE program and ONE schedule, a worker is killed at EVERY one of its yield points in turn (complete over
+    kill points for that schedule; programs and schedules stay sampled).  Every run is judged like an ordinary faulty run.'''
+    import treelog
+    from nutils import parallel
+    with treelog.set(treelog.NullLog()), procsim.patched_parallel():
+        try:
+            call_ref, script, trace_codes = make_call(case)
+        except Exception:
+            return dict(verdict='harness', vclass='workload-build', detail=traceback.format_exc()[-1500:])
+        try:
+            with parallel.maxprocs(1):
+                ref = ('return', call_ref())
+        except Exception as e:
+            ref = ('raise', f'{type(e).__name__}: {e}'[:300])
+        pilot_outcome, pilot = _simulate(make_call(case)[0], case, [], trace_codes)
+        res = judge(case, ref, pilot_outcome, pilot, [])
+        if res['verdict'] != 'pass':
+            return res
+        counts = {}
+        for q, kind, obj, a, b in pilot['events'].tolist():
+            if kind in YIELD_KINDS and q > 0:
+                counts[q] = counts.get(q, 0) + 1
+        points = [(q, n) for q in sorted(counts) for n in range(1, counts[q] + 1)][:160]
+        total = dict(res)
+        total['probes'] = dict(res.get('probes', {}))
+        fired = {}
+        nknown = 0
+        digests = [res['digest']]
+        import time as _time
+        t0 = _time.monotonic()
+        done = 0
+        for q, n in points:
+            if _time.monotonic() - t0 > 40:
+                break    # wall budget of a sweep (slow machine): the remaining kill points are left to other cases
+            done += 1
+            faults = [dict(kind='KILL', proc=q, ykind='ANY', n=n)]
+            outcome, info = _simulate(make_call(case)[0], case, faults, trace_codes)
+            r = judge(case, ref, outcome, info, faults)
+            digests.append(r.get('digest'))
+            total['steps'] = total.get('steps', 0) + r.get('steps', 0)
+            for k, v in (r.get('fired') or {}).items():
+                fired[k] = fired.get(k, 0) + v
+            if r['verdict'] == 'violation':
+                if r.get('vclass') == 'O3-deadlock-lock-owner-killed':
+                    nknown += 1     # the known finding: counted, the sweep goes on
+                    continue
+                rc = copy.deepcopy(case)
+                rc.pop('sweep', None)
+                rc['faults'] = faults
+                r['_resolved_case'] = rc     # reported, shrunk and replayed as an ordinary single-fault case
+                r['detail'] = f'kill-point sweep, worker {q} killed at its yield {n} of {counts[q]}: ' + str(r.get('detail'))
+                return r
+            if r['verdict'] != 'pass':
+                return r
+        total['fired'] = fired
+        total['digest'] = total['sig'] = core.sha(['killsweep', digests[0]])   # of the fault-free pilot: how far a sweep gets within its wall budget must not enter the determinism check
+        total['nontrivial'] = True
+        total['probes'].update({'killsweep_cases': 1, 'killsweep_kill_points': done, 'killsweep_known_deadlocks': nknown,
+                                'killsweep_complete': int(done == sum(counts.values()))})
+        total['family'] = case['prog']['family']
+        if nknown:
+            # surfaces as a hit of the known finding in the batch summary without hiding the rest of the sweep
+            total['known_in_sweep'] = nknown
+        return total
+
+
 def run_case(case):
     import treelog
     from nutils import parallel, evaluable
     if case.get('calib'):
         return run_calibration(case)
+    if case.get('sweep'):
+        return run_sweep(case)
     with treelog.set(treelog.NullLog()), procsim.patched_parallel():
         try:
             call_ref, script, trace_codes = make_call(case)
